@@ -464,6 +464,14 @@ def check_common(rec, world, x, harness, versions, populators_finished):
     return listing
 
 
+def diverged(rec):
+    """A schedule prefix taken from one execution does not replay: the library kept state from an earlier execution in the
+    process (the world is rebuilt before every execution), so what a process does depends on what it did before."""
+    def report(prefix, e):
+        rec.violation("C19:behaviour-depends-on-earlier-executions-in-the-process", prefix=list(prefix), detail=str(e))
+    return report
+
+
 def shard_filter(shard, nshards):
     return lambda k: (k % nshards == shard) if k >= 0 else shard == 0
 
@@ -477,7 +485,7 @@ def h1(rec, world, shard, nshards, bound, versions):
     def chk(x):
         fin = all(p.state == "done" and p.result == ("populate", None) for p in x.procs[:2])
         check_common(rec, world, x, "H1", versions, fin)
-    return sched.explore(mk, bound, chk, shard_filter(shard, nshards))
+    return sched.explore(mk, bound, chk, shard_filter(shard, nshards), on_divergence=diverged(rec))
 
 
 def h3(rec, world, shard, nshards, bound, versions):
@@ -488,7 +496,7 @@ def h3(rec, world, shard, nshards, bound, versions):
 
     def chk(x):
         check_common(rec, world, x, "H3", versions, True)
-    return sched.explore(mk, bound, chk, shard_filter(shard, nshards))
+    return sched.explore(mk, bound, chk, shard_filter(shard, nshards), on_divergence=diverged(rec))
 
 
 def h2(rec, world, shard, nshards, versions):
@@ -573,7 +581,7 @@ def h4(rec, world, shard, nshards, bound, kinds=(False, False)):
                 rec.violation("C19:H4:holder-without-contention-gave-up", result=p.result, **where)
         rec.outcome("H4:" + ",".join(sorted(p.result[0] for p in x.procs if p.result)))
         rec.state(("H4", tuple(x.taken)))
-    return sched.explore(mk, bound, chk, shard_filter(shard, nshards))
+    return sched.explore(mk, bound, chk, shard_filter(shard, nshards), on_divergence=diverged(rec))
 
 
 def h8(rec, world, shard, nshards, bound, versions, initial_names=()):
@@ -596,7 +604,7 @@ def h8(rec, world, shard, nshards, bound, versions, initial_names=()):
 
     def chk(x):
         check_common(rec, world, x, "H8", versions, False)
-    return sched.explore(mk, bound, chk, shard_filter(shard, nshards))
+    return sched.explore(mk, bound, chk, shard_filter(shard, nshards), on_divergence=diverged(rec))
 
 
 def h4c(rec, world, shard, nshards, bound):
@@ -642,7 +650,7 @@ def h4c(rec, world, shard, nshards, bound):
                 rec.violation("C19:H4c:holder-without-contention-gave-up", result=p.result, **where)
         rec.outcome("H4c:" + ",".join(sorted(p.result[0] for p in x.procs if p.result)))
         rec.state(("H4c", tuple(x.taken)))
-    return sched.explore(mk, bound, chk, shard_filter(shard, nshards))
+    return sched.explore(mk, bound, chk, shard_filter(shard, nshards), on_divergence=diverged(rec))
 
 
 def h5c(rec, world, shard, nshards, bound):
@@ -680,7 +688,7 @@ def h5c(rec, world, shard, nshards, bound):
             rec.violation("C19:H5c:two-refreshes-within-one-interval", **where)
         rec.outcome("H5c:" + ",".join(sorted(p.result[0] for p in x.procs if p.result)))
         rec.state(("H5c", tuple(x.taken)))
-    return sched.explore(mk, bound, chk, shard_filter(shard, nshards))
+    return sched.explore(mk, bound, chk, shard_filter(shard, nshards), on_divergence=diverged(rec))
 
 
 def h0(rec, world, versions):
@@ -892,7 +900,7 @@ def h6(rec, world, shard, nshards, bound, version):
             rec.violation("C19:H6:cached-schema-disappeared", choices=x.taken)
         rec.outcome("H6:final=" + ("new" if listing.get(name) == new else "old" if listing.get(name) == old else "other"))
     try:
-        return sched.explore(mk, bound, chk, shard_filter(shard, nshards))
+        return sched.explore(mk, bound, chk, shard_filter(shard, nshards), on_divergence=diverged(rec))
     finally:
         world.server = {}
         world.extra_ok = {}
@@ -1050,10 +1058,19 @@ def worker(rec, shard, nshards, scratch, files, bounds, thorough, seed):
     stats = {}
     # determinism gate: the first schedule replayed twice gives identical observation logs
     a = run_exec(WORLD, [("populator-1", populate, False), ("loader", make_loader(versions[0]), False)], [], crash=False)
-    b = run_exec(WORLD, [("populator-1", populate, False), ("loader", make_loader(versions[0]), False)], list(a.taken), crash=False)
-    if a.log != b.log or a.taken != b.taken:
+    try:
+        b = run_exec(WORLD, [("populator-1", populate, False), ("loader", make_loader(versions[0]), False)], list(a.taken),
+                     crash=False)
+    except sched.Divergence as e:
+        b = None
+        rec.violation("C19:behaviour-depends-on-earlier-executions-in-the-process", gate="the same schedule run twice",
+                      detail=str(e))
+    if b is not None and (a.log != b.log or a.taken != b.taken):
         diff = next(((i, x, y) for i, (x, y) in enumerate(zip(a.log, b.log)) if x != y), (len(a.log), len(b.log)))
-        raise core.HarnessError(f"replay of the same schedule diverged (nondeterminism not captured): {diff}")
+        # the harness owns scheduling, clock, network and file system and rebuilds the world before each run: what is left is
+        # state the library keeps inside the process
+        rec.violation("C19:behaviour-depends-on-earlier-executions-in-the-process", gate="the same schedule run twice",
+                      first_difference=repr(diff)[:300])
     for name, fn in (("H1", lambda: h1(rec, WORLD, shard, nshards, bounds["H1"], versions)),
                      ("H2", lambda: h2(rec, WORLD, shard, nshards, versions)),
                      ("H3", lambda: h3(rec, WORLD, shard, nshards, bounds["H3"], versions)),
